@@ -90,6 +90,7 @@ var goFnList = []fnSpec{
 	{"Crc", "segment", "codec.encodeHeaderUncompressed", "writeHeaderDataAndCrc", "", ""},
 	{"Crc", "segment", "codec.encodeHeaderCompressed", "writeHeaderDataAndCrc", "", ""},
 	{"Crc", "segment", "codec.decodeSegmentHeader", "", "actualHeaderCrc != expectedHeaderCrc", "decodeSegmentHeaderFields"},
+	{"Crc", "segment", "codec.headerLength", "", "", ""},
 }
 
 type fnGen struct {
